@@ -186,6 +186,31 @@ spec fn exec_ok(old: &State, new: &State) -> bool {
         // break: leaves the loop, its frame is dropped
         Opcode::Break(rel) => m.ls.len() > old.ctx.ls_len
             && n == (Mach { ip: jump_to(rel, ip), ls: m.ls.drop_last(), ..m }),
+        // literals and variables
+        Opcode::LoadNil => n == (Mach { ip: (ip + 1) as usize, ds: m.ds.push(Cell::Nil), ..m }),
+        Opcode::LoadI64(x) => n.ip == ip + 1 && n.ds.len() == m.ds.len() + 1
+            && (forall|j: int| 0 <= j < m.ds.len() ==> n.ds[j] == m.ds[j])
+            && n.rs == m.rs && n.ls == m.ls && n.ss == m.ss && n.hp == m.hp,
+        Opcode::LoadF64(x) => n.ip == ip + 1 && n.ds.len() == m.ds.len() + 1
+            && (forall|j: int| 0 <= j < m.ds.len() ==> n.ds[j] == m.ds[j])
+            && n.rs == m.rs && n.ls == m.ls && n.ss == m.ss && n.hp == m.hp,
+        Opcode::LoadStr(x) => n.ip == ip + 1 && n.ds.len() == m.ds.len() + 1
+            && (forall|j: int| 0 <= j < m.ds.len() ==> n.ds[j] == m.ds[j])
+            && n.rs == m.rs && n.ls == m.ls && n.ss == m.ss && n.hp == m.hp,
+        Opcode::LoadCell(c) => n == (Mach { ip: (ip + 1) as usize, ds: m.ds.push(c.cell()), ..m }),
+        Opcode::Load(cref) => cref.0 < m.hp.len()
+            && n == (Mach { ip: (ip + 1) as usize, ds: m.ds.push(m.hp[cref.0 as int]), ..m }),
+        Opcode::Store(cref) => m.ds.len() > old.ctx.ds_len && cref.0 < m.hp.len()
+            && n == (Mach { ip: (ip + 1) as usize, ds: m.ds.drop_last(), hp: m.hp.update(cref.0 as int, m.ds.last()), ..m }),
+        // locals: the first initialisation appends the slot, a later one (a loop body) overwrites it -
+        // whether or not the step is being recorded
+        Opcode::InitLocal(i) => m.ds.len() > old.ctx.ds_len && m.rs.len() > old.ctx.rs_len && ({
+            let f = m.rs.last();
+            let l2 = if i < f.locals.len() { f.locals.update(i as int, m.ds.last()) } else { f.locals.push(m.ds.last()) };
+            n == (Mach { ip: (ip + 1) as usize, ds: m.ds.drop_last(), rs: m.rs.update(m.rs.len() - 1, FrameV { locals: l2, ..f }), ..m })
+        }),
+        Opcode::LoadLocal(i) => m.rs.len() > old.ctx.rs_len && i < m.rs.last().locals.len()
+            && n == (Mach { ip: (ip + 1) as usize, ds: m.ds.push(m.rs.last().locals[i as int]), ..m }),
         _ => true,
     }
 }
